@@ -10,6 +10,7 @@ import (
 	"sort"
 	"strconv"
 	"strings"
+	"unicode"
 )
 
 func init() { commands["genlex"] = genLexCmd }
@@ -150,6 +151,36 @@ func genLexCmd(in *bufio.Scanner, out *bufio.Writer, args []string) error {
 			ps = append(ps, 125, 126, 127, 128, 253, 254, 255, 256, 509, 510, 511, 1021, 1022, 1023)
 			for _, p := range ps {
 				fmt.Fprintln(out, hx([]byte("SELECT "+strings.Repeat("a", p)+l+"b FROM t")))
+			}
+		}
+	case "categories":
+		// representatives (first, middle, last code point of the 16- and 32-bit ranges) of EVERY Unicode general category of the
+		// installed Go, at a token start, inside and after words and numbers, in strings and comments: whatever the lexer's
+		// character classes are built from (IsLetter, IsDigit, IsSpace, a category of its own), each class is hit
+		cats := make([]string, 0, len(unicode.Categories))
+		for name := range unicode.Categories {
+			cats = append(cats, name)
+		}
+		sort.Strings(cats)
+		seen := map[rune]bool{}
+		for _, name := range cats {
+			tab := unicode.Categories[name]
+			var reps []rune
+			if n := len(tab.R16); n > 0 {
+				reps = append(reps, rune(tab.R16[0].Lo), rune(tab.R16[n/2].Lo), rune(tab.R16[n-1].Hi))
+			}
+			if n := len(tab.R32); n > 0 {
+				reps = append(reps, rune(tab.R32[0].Lo), rune(tab.R32[n/2].Lo), rune(tab.R32[n-1].Hi))
+			}
+			for _, r := range reps {
+				if seen[r] || (r >= 0xD800 && r <= 0xDFFF) {
+					continue
+				}
+				seen[r] = true
+				c := string(r)
+				for _, t := range []string{c, "SELECT " + c, "SELECT " + c + " FROM t", "a" + c, c + "a", "1" + c, c + "1", "'" + c + "'", "-- " + c + "\n1", "SELECT a." + c, "$" + c + "$x$" + c + "$", c + c + c} {
+					fmt.Fprintln(out, hx([]byte(t)))
+				}
 			}
 		}
 	case "bodies":
